@@ -20,7 +20,6 @@ for c in $CHECKS; do
   tail -2 "/tmp/cs-$P-check-$c.out" >>"$LOG"
 done
 echo "== pinned suite on changed tree" >>"$LOG"
-( cd "$WT" && /venv/bin/python -m pytest -q -p no:cacheprovider --timeout=900 --continue-on-collection-errors beartype_test 2>&1 | tail -22 ) >>"$LOG" 2>&1
+[ -n "$SKIP_SUITE" ] || ( cd "$WT" && /venv/bin/python -m pytest -q -p no:cacheprovider --timeout=900 --continue-on-collection-errors beartype_test 2>&1 | tail -22 ) >>"$LOG" 2>&1
 git -C /repo worktree remove --force "$WT" >>"$LOG" 2>&1
-rm -rf /verif/replay
 echo DONE >>"$LOG"
